@@ -2,6 +2,7 @@
 (deap/tools/constraint.py)."""
 import array
 import copy
+import functools
 import itertools
 
 import numpy
@@ -18,7 +19,9 @@ RULE = ("exhaustive: every weight-sign pattern in {+,-,0}^n for n=1..4 (random m
         "random dyadic values; representations (first stream): vectors handed over as tuple / list / numpy.ndarray / array.array / range "
         "and scalars as int / float / numpy.float64 for delta x distance x both decorators, feasibility returned as bool / "
         "numpy.bool_ / int / any truthy-falsy object; near-tie weights (+-5e-324, +0.0, -0.0); exact numbers: DeltaPenalty with Python int constants / distances "
-        "beyond 2**53 and Fractions (scalar/vector x absent/int/Fraction distance), compared exactly; keyword names: every "
+        "beyond 2**53 and Fractions (scalar/vector x absent/int/Fraction distance), compared exactly; wrapped functions: the function handed to the decorator "
+        "is a functools.wraps wrapper around a different bare function / a partial / a callable object / a function with "
+        "cache-style attributes x both decorators; keyword names: every "
         "extra keyword named like an internal identifier (func, self, f_ind, alpha, ...) x both decorators x feasible/infeasible; "
         "sequences: 2-5 calls through ONE decorator object decorating 1-3 different functions "
         "(wrappers called in any and in every order), individuals of different fitness classes (sign pattern, number of "
@@ -248,12 +251,42 @@ def evaluate(d):
     state = {"cur": None}
     calls, feas_calls = [], []
 
+    fwrap = d.get("fwrap")
+
     def make_func(j):
+        """the evaluation function handed to the decorator: a plain function, or (fwrap) what a user's own
+        decorator stack produces - a functools.wraps wrapper whose `__wrapped__` is a DIFFERENT function, a
+        functools.partial, a callable object, an lru_cache-like wrapper with attributes"""
+        def value(individual, shift, poison=0):
+            cur = state["cur"]
+            return cur.seqtype(num(v + Fr(shift) + foff[j] + poison) for v in table[gkey(individual)])
+
         def func(individual, shift=0, *a, **kw):
             calls.append((individual, shift, a, kw, j))
-            cur = state["cur"]
-            return cur.seqtype(num(v + Fr(shift) + foff[j]) for v in table[gkey(individual)])
+            return value(individual, shift)
         func.__name__ = "func%d" % j
+        if fwrap == "wraps":
+            def raw(individual, shift=0, *a, **kw):          # the bare objective the user wrapped: another function
+                calls.append((individual, shift, a, kw, "raw%d" % j))
+                return value(individual, shift, 4096)
+            outer = functools.wraps(raw)(func)               # sets outer.__wrapped__ = raw
+            return outer
+        if fwrap == "partial":
+            def lead(tag_, individual, shift=0, *a, **kw):
+                calls.append((individual, shift, a, kw, j))
+                return value(individual, shift)
+            return functools.partial(lead, "lead")
+        if fwrap == "callable":
+            class Evaluator(object):
+                def __call__(_evaluator_obj, individual, shift=0, *a, **kw):
+                    calls.append((individual, shift, a, kw, j))
+                    return value(individual, shift)
+            return Evaluator()
+        if fwrap == "attrs":
+            func.__wrapped__ = None                          # attributes a caching / counting decorator leaves behind
+            func.cache_info = lambda: None
+            func.func = "not a function"
+            return func
         return func
 
     def feasibility(individual):
@@ -337,7 +370,7 @@ def evaluate(d):
         res, exc = call(c)
         calls1 = list(calls)
         ident = lambda o: 0 if o is x else (1 if o is c.c else 9)
-        call_tok = ",".join("%d:%s:%s%s" % (ident(i), sfr(Fr(s_)), tag_of(a, kw), "" if j == fi else "!func%d" % j)
+        call_tok = ",".join("%d:%s:%s%s" % (ident(i), sfr(Fr(s_)), tag_of(a, kw), "" if j == fi else "!%s" % (j if isinstance(j, str) else "func%d" % j))
                             for (i, s_, a, kw, j) in calls1) or "-"
         badres = None
         if exc is None:
@@ -603,6 +636,8 @@ def make_seq(rng):
                 c["cfit"] = [rand_dyadic(rng) for _ in range(n)]
         calls.append(c)
     d = {"k": "seq", "deco": k, "has_dist": has_dist, "calls": calls}
+    if rng.random() < 0.25:
+        d["fwrap"] = rng.choice(FWRAPS)
     if nfuncs > 1:
         d["nfuncs"] = nfuncs
         d["foff"] = [sfr(Fr(v)) for v in rng.sample([0, 1, -3, 16, Fr(5, 2), Fr(-7, 4), 100], nfuncs)]
@@ -700,6 +735,42 @@ def make_kwnames(rng):
     return out
 
 
+FWRAPS = ["wraps", "partial", "callable", "attrs"]
+
+
+def make_wrapped(rng):
+    """the function handed to the decorator is itself the product of the user's decorators (fixed family list:
+    functools.wraps wrapper around a different bare function, functools.partial, callable object, function with
+    cache-style attributes) x both decorators x feasible / infeasible x 1-2 decorated functions"""
+    out = []
+    strip = lambda c: dict((key, v) for key, v in c.items() if key not in ("k", "delta", "delta_rep", "alpha", "alias"))
+    for k in ("delta", "closest"):
+        for fw in FWRAPS:
+            for nfuncs in (1, 2):
+                n = rng.randint(1, 3)
+                signs = [rng.choice([1, -1, -1, 0]) for _ in range(n)]
+                protos = [make(rng, k, signs, feas, "scalar", rng.choice(["absent", "scalar", "vector"]))
+                          for feas in (True, False, False)]
+                has_dist = protos[0].get("dist") is not None
+                calls = []
+                for proto in protos:
+                    c = strip(proto)
+                    if not has_dist:
+                        c["dist"] = None
+                        c.pop("dist_rep", None)
+                    elif c.get("dist") is None:
+                        c["dist"] = {"s": "2"}
+                    c["fi"] = rng.randrange(nfuncs)
+                    calls.append(c)
+                d = {"k": "seq", "deco": k, "has_dist": has_dist, "calls": calls, "nfuncs": nfuncs, "fwrap": fw,
+                     "foff": [sfr(Fr(v)) for v in rng.sample([0, 1, -3, 16, 100], nfuncs)]}
+                for key in ("delta", "delta_rep", "alpha"):
+                    if key in protos[0]:
+                        d[key] = protos[0][key]
+                out.append(d)
+    return out
+
+
 def make_neartie(rng):
     """weights at the boundary of `w >= 0`: the smallest positive / negative doubles, +0.0 and -0.0"""
     tiny = sfr(Fr(5e-324))
@@ -753,6 +824,9 @@ def generate(tier, rng, mult):
             yield d
         for d in make_kwnames(rng):
             yield d
+        for _ in range(3):
+            for d in make_wrapped(rng):
+                yield d
     for _ in range(reps):
         for n in range(1, 5):
             for signs in itertools.product([1, -1, 0], repeat=n):
